@@ -39,6 +39,22 @@ type Job struct {
 	DataType      gdbi.DataType
 	MarkTypes     map[string]gdbi.DataType
 	StepChecksums []string
+	// lock guards Status.State and Status.Count, which the spool goroutine
+	// updates while clients ask for the status
+	lock sync.Mutex
+}
+
+// status returns a copy of the job's status taken under its lock.
+func (j *Job) status() *gripql.JobStatus {
+	j.lock.Lock()
+	defer j.lock.Unlock()
+	return &gripql.JobStatus{Id: j.Status.Id, Graph: j.Status.Graph, State: j.Status.State, Count: j.Status.Count, Query: j.Status.Query, Timestamp: j.Status.Timestamp}
+}
+
+func (j *Job) setState(s gripql.JobState) {
+	j.lock.Lock()
+	j.Status.State = s
+	j.lock.Unlock()
 }
 
 func jobKey(graph, job string) string {
@@ -120,7 +136,7 @@ func (fs *FSResults) Search(graph string, Query []*gripql.GraphStatement) (chan 
 			vJob := value.(*Job)
 			if vJob.Status.Graph == graph {
 				if JobMatch(qcs, vJob.StepChecksums) {
-					out <- &vJob.Status
+					out <- vJob.status()
 				}
 			}
 			return true
@@ -158,26 +174,30 @@ func (fs *FSResults) Spool(graph string, stream *Stream) (string, error) {
 	fs.jobs.Store(jobKey(graph, jobName), job)
 	tbStream := MarshalStream(stream.Pipe, 4) //TODO: make worker count configurable
 	go func() {
-		job.Status.State = gripql.JobState_RUNNING
+		job.setState(gripql.JobState_RUNNING)
 		log.Printf("Starting Job: %#v", job)
 		defer resultFile.Close()
 		for i := range tbStream {
 			resultFile.Write(i)
 			resultFile.Write([]byte("\n"))
+			job.lock.Lock()
 			job.Status.Count += 1
+			job.lock.Unlock()
 		}
 		statusPath := filepath.Join(spoolDir, "status")
 		statusFile, err := os.Create(statusPath)
 		if err == nil {
 			defer statusFile.Close()
-			job.Status.State = gripql.JobState_COMPLETE
+			job.setState(gripql.JobState_COMPLETE)
+			job.lock.Lock()
 			out, err := json.Marshal(job)
+			job.lock.Unlock()
 			if err == nil {
 				statusFile.Write([]byte(fmt.Sprintf("%s\n", out)))
 			}
-			log.Printf("Job Done: %s (%d results)", jobName, job.Status.Count)
+			log.Printf("Job Done: %s (%d results)", jobName, job.status().Count)
 		} else {
-			job.Status.State = gripql.JobState_ERROR
+			job.setState(gripql.JobState_ERROR)
 			log.Printf("Job Error: %s %s", jobName, err)
 		}
 	}()
@@ -186,7 +206,7 @@ func (fs *FSResults) Spool(graph string, stream *Stream) (string, error) {
 
 func (fs *FSResults) Stream(ctx context.Context, graph, id string) (*Stream, error) {
 	if vJob, ok := fs.load(graph, id); ok {
-		if vJob.Status.State == gripql.JobState_COMPLETE {
+		if vJob.status().State == gripql.JobState_COMPLETE {
 			resultFile := filepath.Join(fs.BaseDir, sanitize.Name(graph), sanitize.Name(id), "results")
 			results, err := os.Open(resultFile)
 			if err != nil {
@@ -223,7 +243,7 @@ func (fs *FSResults) Stream(ctx context.Context, graph, id string) (*Stream, err
 
 func (fs *FSResults) Delete(graph, id string) error {
 	if vJob, ok := fs.load(graph, id); ok {
-		if vJob.Status.State == gripql.JobState_RUNNING || vJob.Status.State == gripql.JobState_QUEUED {
+		if state := vJob.status().State; state == gripql.JobState_RUNNING || state == gripql.JobState_QUEUED {
 			return fmt.Errorf("Job cancel not yet implemented")
 		}
 		fs.jobs.Delete(jobKey(graph, id))
@@ -235,8 +255,7 @@ func (fs *FSResults) Delete(graph, id string) error {
 
 func (fs *FSResults) Status(graph, id string) (*gripql.JobStatus, error) {
 	if vJob, ok := fs.load(graph, id); ok {
-		a := vJob.Status
-		return &a, nil
+		return vJob.status(), nil
 	}
 	return nil, fmt.Errorf("Job Not Found")
 }
